@@ -30,7 +30,7 @@ HARNESS_RULES = {"UnknownEvent", "HarnessHang", "MalformedEvent"}
 SIM = "acquire-driver-common/src/simcams"
 PCG = SIM + "/3rdParty/pcg-c-basic-0.9"
 REDEF_CAM = {"malloc": "vh_malloc", "realloc": "vh_realloc", "free": "vh_free", "lock_acquire": "vh_lock_acquire",
-             "lock_release": "vh_lock_release", "condition_variable_notify_all": "vh_cv_notify_all",
+             "lock_release": "vh_lock_release", "condition_variable_notify_all": "vh_cv_notify_all", "condition_variable_wait": "vh_cv_wait",
              "pcg32_random": "vh_pcg32_random", "thread_join": "vh_thread_join"}
 REDEF_FILL = {"sinf": "vh_sinf"}
 VARIANTS = {"avx": ["-mavx2"], "plain": []}
@@ -201,13 +201,14 @@ def directed_scenarios():
 # ----------------------------------------------------------------------------------------------------------------
 # running the harness, with restart after a crash / sanitizer death
 
-def run_harness(exe, hfile, trace, mis, nlines, asan=False, timeout=900, max_deaths=12):
+def run_harness(exe, hfile, trace, mis, nlines, asan=False, timeout=900, max_deaths=12, per_history_s=20):
     first, deaths, stats, drift = 0, 0, {}, []
     env = {"ASAN_OPTIONS": "detect_leaks=0:exitcode=23:allocator_may_return_null=1:max_malloc_fill_size=0"} if asan else {}
     t_end = time.time() + timeout
     stopped_early = False
     while first < nlines:
-        rc, out = run([exe, hfile, trace, str(first), str(mis)], timeout=max(5, t_end - time.time()), env=env, stderr=subprocess.DEVNULL)
+        rc, out = run([exe, hfile, trace, str(first), str(mis), str(per_history_s)], timeout=max(5, t_end - time.time()), env=env,
+                      stderr=subprocess.DEVNULL)
         for l in out.splitlines():
             if l.startswith("DRIFT"):
                 drift.append(l)
@@ -555,7 +556,8 @@ def main(prop, tier):
         tr = os.path.join(bdir, "t_%03d.ndjson" % i)
         if os.path.exists(tr):
             os.remove(tr)
-        st, drift = run_harness(exes[(v, a)], hf, tr, m, len(ls), asan=a, timeout=2400 if thorough else 240)
+        st, drift = run_harness(exes[(v, a)], hf, tr, m, len(ls), asan=a, timeout=2400 if thorough else 240,
+                                per_history_s=120 if thorough else 20)
         return dict(trace=tr, hfile=hf, variant=v, asan=a, mis=m, label=label, stats=st, drift=drift, n=len(ls))
 
     with cf.ThreadPoolExecutor(max_workers=NCPU) as ex:
